@@ -84,6 +84,16 @@ func (c *Conn) handleSearch(tag string, dec *imapwire.Decoder, numKind NumKind) 
 	if err != nil {
 		return err
 	}
+	if data.All == nil {
+		// No set at all means no message: the zero SearchData is a valid result
+		all := *data
+		if numKind == NumKindUID {
+			all.All = imap.UIDSet{}
+		} else {
+			all.All = imap.SeqSet{}
+		}
+		data = &all
+	}
 
 	if c.enabled.Has(imap.CapIMAP4rev2) || extended {
 		return c.writeESearch(tag, data, &options)
